@@ -93,6 +93,7 @@ var atomFuncs = map[string]string{
 	"(" + modPath + "/analysis/sql.Table).TableName":  "IDENT",
 	"(go/constant.Value).ExactString":               "CONST",
 	"strconv.Quote":                                 "QSTR",
+	"(reflect.StructTag).Get":                       "USER",
 	"(go/constant.Value).String":                    "CONST",
 	modPath + "/generator.Origin":                   "COMMENT",
 	modPath + "/generator.ReplaceEnums":             "USER",
@@ -312,6 +313,31 @@ func (ev *tplEval) evalIdent(fc *fctx, id *ast.Ident) Sketch {
 		if isParam {
 			if sk, ok := ev.paramFromCallSites(fc, obj); ok {
 				return sk
+			}
+		}
+		if isRange && isStringType(obj.Type()) {
+			// element (or key) of a collection of strings
+			var rx ast.Expr
+			isValue := false
+			ast.Inspect(fc.fn, func(n ast.Node) bool {
+				if rs, ok := n.(*ast.RangeStmt); ok {
+					if v := identOf(rs.Value); v != nil && info.Defs[v] == obj {
+						rx, isValue = rs.X, true
+					}
+					if k := identOf(rs.Key); k != nil && info.Defs[k] == obj {
+						rx = rs.X
+					}
+				}
+				return true
+			})
+			if rx != nil {
+				if isValue {
+					if el, ok := ev.evalList(fc, rx); ok {
+						return el
+					}
+				}
+				// data carried by the analysis (user comments, file names): free text
+				return Sketch{Atom{"USER", es(rx)}}
 			}
 		}
 		return ev.unk(id, "parameter/range variable of unknown content")
@@ -542,6 +568,33 @@ func (ev *tplEval) eval(fc *fctx, e ast.Expr) Sketch {
 		if fi := ev.w.Funcs[fn]; fi != nil && ev.depth < 6 {
 			if fn.Type().(*types.Signature).Results().Len() == 1 {
 				return ev.inline(fc, fi, e)
+			}
+		}
+		// method of a module interface: alternatives over the module's implementations
+		if sig, ok := fn.Type().(*types.Signature); ok && sig.Recv() != nil && ev.depth < 6 {
+			if _, isItf := sig.Recv().Type().Underlying().(*types.Interface); isItf && fn.Pkg() != nil && strings.HasPrefix(fn.Pkg().Path(), modPath) {
+				var opts []Sketch
+				seen := map[string]bool{}
+				for _, fi := range sortedFuncs(ev.w) {
+					if fi.Obj.Name() != fn.Name() || fi.Decl.Recv == nil {
+						continue
+					}
+					rt := fi.Obj.Type().(*types.Signature).Recv().Type()
+					if !types.Implements(rt, sig.Recv().Type().Underlying().(*types.Interface)) && !types.Implements(types.NewPointer(rt), sig.Recv().Type().Underlying().(*types.Interface)) {
+						continue
+					}
+					sk := ev.inline(fc, fi, e)
+					if k := sk.String(); !seen[k] {
+						seen[k] = true
+						opts = append(opts, sk)
+					}
+				}
+				if len(opts) == 1 {
+					return opts[0]
+				}
+				if len(opts) > 1 {
+					return Sketch{Alt{opts}}
+				}
 			}
 		}
 		// promoted Name() etc. on embedded go/types objects
